@@ -7,17 +7,21 @@ package store
 import (
 	"context"
 	"fmt"
+	"strconv"
 	"sync"
 	"sync/atomic"
 	"time"
 
 	v1 "k8s.io/api/core/v1"
+	resourceapi "k8s.io/api/resource/v1"
 	"k8s.io/apimachinery/pkg/api/meta"
 	metav1 "k8s.io/apimachinery/pkg/apis/meta/v1"
 	"k8s.io/apimachinery/pkg/runtime"
 	"k8s.io/apimachinery/pkg/runtime/schema"
 	"k8s.io/apimachinery/pkg/runtime/serializer"
+	"k8s.io/apimachinery/pkg/version"
 	"k8s.io/apimachinery/pkg/watch"
+	fakediscovery "k8s.io/client-go/discovery/fake"
 	"k8s.io/client-go/kubernetes/fake"
 	clientgoscheme "k8s.io/client-go/kubernetes/scheme"
 	k8stesting "k8s.io/client-go/testing"
@@ -40,6 +44,7 @@ func Scheme() *runtime.Scheme {
 type countingTracker struct {
 	k8stesting.ObjectTracker
 	writes *atomic.Int64
+	rv     atomic.Int64 // last resourceVersion handed out (resource.k8s.io objects only, see stampRV)
 
 	mu       sync.Mutex
 	watchers map[schema.GroupVersionResource][]*qWatcher
@@ -160,12 +165,30 @@ func (t *countingTracker) after(gvr schema.GroupVersionResource, ns string, obj 
 	return err
 }
 
+// stampRV gives a resource.k8s.io object a fresh, monotonically increasing metadata.resourceVersion, as an API
+// server does on every write. The scheduler's DRA manager keeps ResourceClaims in an assume cache that orders
+// object versions by parsing this field (an empty value is an error there). Other kinds keep the tracker's
+// behaviour (no version), which the rest of the harness was built on.
+func (t *countingTracker) stampRV(obj runtime.Object) {
+	if obj == nil {
+		return
+	}
+	gvks, _, err := storeScheme.ObjectKinds(obj)
+	if err != nil || len(gvks) == 0 || gvks[0].Group != "resource.k8s.io" {
+		return
+	}
+	if a, err := meta.Accessor(obj); err == nil {
+		a.SetResourceVersion(strconv.FormatInt(t.rv.Add(1), 10))
+	}
+}
+
 func (t *countingTracker) Add(obj runtime.Object) error {
 	t.mu.Lock()
 	defer t.mu.Unlock()
 	if meta.IsListType(obj) {
 		return t.ObjectTracker.Add(obj)
 	}
+	t.stampRV(obj)
 	err := t.ObjectTracker.Add(obj)
 	if err == nil {
 		if gvks, _, kerr := storeScheme.ObjectKinds(obj); kerr == nil && len(gvks) > 0 {
@@ -184,18 +207,21 @@ func (t *countingTracker) Create(gvr schema.GroupVersionResource, obj runtime.Ob
 	t.writes.Add(1)
 	t.mu.Lock()
 	defer t.mu.Unlock()
+	t.stampRV(obj)
 	return t.after(gvr, ns, obj, watch.Added, t.ObjectTracker.Create(gvr, obj, ns, opts...))
 }
 func (t *countingTracker) Update(gvr schema.GroupVersionResource, obj runtime.Object, ns string, opts ...metav1.UpdateOptions) error {
 	t.writes.Add(1)
 	t.mu.Lock()
 	defer t.mu.Unlock()
+	t.stampRV(obj)
 	return t.after(gvr, ns, obj, watch.Modified, t.ObjectTracker.Update(gvr, obj, ns, opts...))
 }
 func (t *countingTracker) Patch(gvr schema.GroupVersionResource, obj runtime.Object, ns string, opts ...metav1.PatchOptions) error {
 	t.writes.Add(1)
 	t.mu.Lock()
 	defer t.mu.Unlock()
+	t.stampRV(obj)
 	return t.after(gvr, ns, obj, watch.Modified, t.ObjectTracker.Patch(gvr, obj, ns, opts...))
 }
 func (t *countingTracker) Apply(gvr schema.GroupVersionResource, obj runtime.Object, ns string, opts ...metav1.PatchOptions) error {
@@ -302,6 +328,40 @@ func (s *Store) reactor(name string) k8stesting.ReactionFunc {
 		}
 		return false, nil, nil
 	}
+}
+
+// EnableDRA makes the kube clientset's fake discovery describe an API server that serves Dynamic Resource
+// Allocation: server version 1.34 and the resource.k8s.io/v1 group version. The scheduler cache decides the
+// DynamicResourceAllocation feature gate from exactly these two answers (pkg/common/feature_gates) every time a
+// cache is built. DisableDRA restores the answers of a server without the API group (the gate goes off).
+func (s *Store) EnableDRA() {
+	fd, ok := s.Kube.Discovery().(*fakediscovery.FakeDiscovery)
+	if !ok {
+		return
+	}
+	fd.FakedServerVersion = &version.Info{Major: "1", Minor: "34", GitVersion: "v1.34.2"}
+	gv := resourceapi.SchemeGroupVersion.String()
+	for _, rl := range s.Kube.Fake.Resources {
+		if rl.GroupVersion == gv {
+			return
+		}
+	}
+	s.Kube.Fake.Resources = append(s.Kube.Fake.Resources, &metav1.APIResourceList{GroupVersion: gv, APIResources: []metav1.APIResource{
+		{Name: "deviceclasses", Kind: "DeviceClass", Verbs: metav1.Verbs{"get", "list", "watch"}},
+		{Name: "resourceslices", Kind: "ResourceSlice", Verbs: metav1.Verbs{"get", "list", "watch"}},
+		{Name: "resourceclaims", Namespaced: true, Kind: "ResourceClaim", Verbs: metav1.Verbs{"get", "list", "watch", "update", "patch"}},
+	}})
+}
+
+// DRAEnabled reports whether EnableDRA was called.
+func (s *Store) DRAEnabled() bool {
+	gv := resourceapi.SchemeGroupVersion.String()
+	for _, rl := range s.Kube.Fake.Resources {
+		if rl.GroupVersion == gv {
+			return true
+		}
+	}
+	return false
 }
 
 // AddHook registers a clientset hook (applies to both clientsets).
